@@ -150,3 +150,83 @@ Theorem model_outputs_pass_spec :
     spec_ok (model_case block seed p_num p_log (ops0 :: opss)) = true.
 Proof. exact Proofs.C22.model_outputs_pass_spec. Qed.
 Print Assumptions model_outputs_pass_spec.
+
+(* ---- call histories on ONE executor instance: the answer is a function of (operators, window
+        index, seed) only -- no memory.  The executor is a state machine over the wallet's
+        operator list; every history entry carries its own map iteration order ---- *)
+
+(* history independence: after ANY history the executor's state is the operator list it was
+   created with, and its answers are the pure function answer_of mapped over the history *)
+Theorem run_history_is_map :
+  forall (rngT : Type) (mkrng : Z -> rngT) (shuffle : rngT -> list N -> list N)
+         (heartbeat_of : rngT -> bool) (ops : list N) (h : list hentry),
+    run_history rngT mkrng shuffle heartbeat_of ops h =
+      (ops, map (answer_of rngT mkrng shuffle heartbeat_of ops) h).
+Proof. exact Proofs.C22.run_history_is_map. Qed.
+Print Assumptions run_history_is_map.
+
+(* two members with the same SET of operators, each with its OWN history on its own executor
+   (any lengths, any earlier windows, any map iteration orders at every call): round i of the
+   one and round j of the other, if they are for the same window index and seed, give the same
+   (leader, checklist); the leader is an operator of the wallet; the checklist of a valid
+   window starts with Redemption.  With ops = ops', h = h' this is "the same member asked
+   again repeats itself"; with h' = [e] it is "a freshly restarted member agrees with a
+   long-running one". *)
+Theorem members_agree_whatever_their_histories :
+  forall (rngT : Type) (mkrng : Z -> rngT) (shuffle : rngT -> list N -> list N)
+         (heartbeat_of : rngT -> bool),
+    (forall g l, Permutation (shuffle g l) l) ->
+    forall (ops ops' : list N) (h h' : list hentry),
+      (forall x, In x ops <-> In x ops') ->
+      (forall e l, In e h -> Permutation (e_iter e l) l) ->
+      (forall e l, In e h' -> Permutation (e_iter e l) l) ->
+      forall i j e e',
+        nth_error h i = Some e -> nth_error h' j = Some e' ->
+        e_idx e = e_idx e' -> e_seed e = e_seed e' ->
+        exists a,
+          nth_error (snd (run_history rngT mkrng shuffle heartbeat_of ops h)) i = Some a /\
+          nth_error (snd (run_history rngT mkrng shuffle heartbeat_of ops' h')) j = Some a /\
+          (ops <> [] -> exists o, fst a = Leader o /\ In o ops /\ In o ops') /\
+          (e_idx e <> 0 -> exists rest, snd a = ActionRedemption :: rest).
+Proof. exact Proofs.C22.members_agree_whatever_their_histories. Qed.
+Print Assumptions members_agree_whatever_their_histories.
+
+(* the concrete executor (Go's math/rand): its run over a history of (window index, seed)
+   rounds leaves the operator list alone and answers each round as a fresh executor would *)
+Theorem concrete_history_has_no_memory :
+  forall pn pl ops h,
+    concrete_run pn pl ops h =
+      (ops, map (fun w => (Concrete.get_leader (snd w) ops,
+                           Concrete.get_actions_checklist (fst w) (snd w) pn pl)) h).
+Proof. exact Proofs.C22.concrete_history_has_no_memory. Qed.
+Print Assumptions concrete_history_has_no_memory.
+
+(* the executable history property used by the correspondence check is sound ... *)
+Theorem hspec_ok_sound :
+  forall h, hspec_ok h = true ->
+    (forall m k, In m (h_members h) -> In k (m_calls m) -> m_ops m <> [] ->
+       exists o, k_leader k = Leader o /\ In o (m_ops m)) /\
+    (forall m m' k k', In m (h_members h) -> In m' (h_members h) ->
+       In k (m_calls m) -> In k' (m_calls m') ->
+       k_block k = k_block k' -> k_seed_exp k = k_seed_exp k' ->
+       k_leader k = k_leader k' /\ k_checklist k = k_checklist k') /\
+    (forall m k, In m (h_members h) -> In k (m_calls m) -> k_index k <> 0 ->
+       exists rest,
+         k_checklist k = ActionRedemption :: rest /\
+         (In ActionDepositSweep rest <-> k_index k mod 4 = 0) /\
+         (In ActionMovedFundsSweep rest <-> k_index k mod 4 = 0) /\
+         (In ActionMovingFunds rest <-> k_index k mod 4 = 0) /\
+         (In ActionHeartbeat rest <-> draw_lt (k_draw k) (h_p_num h) (h_p_log h) = true) /\
+         (forall a, In a rest -> a = ActionDepositSweep \/ a = ActionMovedFundsSweep \/
+                                 a = ActionMovingFunds \/ a = ActionHeartbeat)).
+Proof. exact Proofs.C22.hspec_ok_sound. Qed.
+Print Assumptions hspec_ok_sound.
+
+(* ... and holds of every history case the model produces: members over the same operator
+   set, each with its own list of (coordination block, seed) rounds *)
+Theorem model_histories_pass_spec :
+  forall p_num p_log (ms : list (list N * list (Z * list N))),
+    (forall m m', In m ms -> In m' ms -> forall x, In x (fst m) <-> In x (fst m')) ->
+    hspec_ok (model_hcase p_num p_log ms) = true.
+Proof. exact Proofs.C22.model_histories_pass_spec. Qed.
+Print Assumptions model_histories_pass_spec.
